@@ -9,6 +9,33 @@ EVAL_HYP = (' Theorem hypotheses: the tree is well-formed (wf_node, decidable; t
             'user functions are pure total functions with an error result.')
 T_EVAL = 'Coq proof (mutual induction over the syntax tree of the evaluator model) + differential correspondence check'
 CLAIMS = {
+    'C02': {
+        'text': 'PARTIAL. Proved on the regenerated grammar and the action model: the PEG part never fails (every rejection is raised by '
+                'an action, C02_peg_never_fails), the comparison builders put operands in rank order with at most one swap and no '
+                'recursion (C02_compare_builder_total), syntax errors point inside the path. Not proved: absence of crash sites in the 46 '
+                'actions (stack discipline) and the fuel bound. Those are decided by the correspondence check: ~22,000 strings per quick '
+                'run (grammar-derived, mutated, token soup, Unicode, invalid UTF-8, the bounded-exhaustive reduced grammar) x 4 '
+                'configurations in isolated workers with a time limit; crash, timeout, (nil,nil), undocumented error type or a model '
+                'crash outcome is a violation.',
+        'note': NOTE_COMMON + ' Bounded time is a measurement (per-case wall-clock limit), not a proof.',
+        'technique': 'Coq proofs on the regenerated grammar (reflective shape check + generic PEG lemmas) + isolated-worker differential testing'},
+    'C17': {
+        'text': 'Acceptance in the model is "derivable by the Coq PEG interpreter running the grammar regenerated from /repo/jsonpath.peg '
+                'on this run and no action rejects". Proved: C17_expression_total (start rule total), C17_position_accounting (captures '
+                'lie inside their match, any grammar), C17_syntax_error_inside_partial (reported offset is inside the path). Translation '
+                'validation (not a theorem): the generated parser jsonpath.peg.go is compared with that interpreter on every generated '
+                'string: accept/reject, error type, position, argument; tree dumps node by node for accepted paths; near must be the rest '
+                'of the path from the reported character.',
+        'note': NOTE_COMMON + ' The translator also compares each action text of jsonpath.peg with the case body in jsonpath.peg.go.',
+        'technique': 'Coq proofs over the regenerated grammar + translation validation of the generated parser against the PEG interpreter'},
+    'C19': {
+        'text': 'C19_history_independent / C19_state_reset (coq/Api.v): in the transcription of jsonpath.go (persistent package-level '
+                'parser state, config copied only when given, deferred zeroing on every exit) every call of every history returns '
+                'what the same call returns on a fresh parser. Tie: histories of <= 10 Parse/Retrieve calls (failing at every kind of '
+                'action, mixed configs, configs modified after Parse) vs the same call alone and vs the model; the parser action state '
+                'is read through the verif hook after every call.',
+        'note': NOTE_COMMON + ' Value capture of Go closures is observed dynamically only.',
+        'technique': 'Coq proof over an API state machine + history replay with state inspection hook'},
     'C03': {
         'text': 'C03_eval_total / C03_invariant (coq/Prop_C03.v, EvalInv1-4.v): on the evaluator model every call on a well-formed tree '
                 'returns a non-empty result list or a runtime error — no modelled Go panic site (index out of range, failed type '
